@@ -44,6 +44,54 @@ def check_program(ctx, w, p, how):
     return True
 
 
+def search_stratum(ctx, w):
+    """the property's second observation point: the argument received by the user's fitness function during a search"""
+    from geneticengine.algorithms.gp.gp import GeneticProgramming
+    from geneticengine.algorithms.hill_climbing import HC
+    from geneticengine.algorithms.one_plus_one import OnePlusOne
+    from geneticengine.algorithms.random_search import RandomSearch
+    from geneticengine.evaluation.budget import AnyOf, EvaluationBudget, SearchBudget
+    from geneticengine.problems import SingleObjectiveProblem
+    from ..world import OpResult
+
+    H = ctx.H
+    seen = [0]
+
+    def ff(p):
+        seen[0] += 1
+        check_program(ctx, w, p, "search-argument")
+        return float(seen[0] % 7)
+
+    class Checks(SearchBudget):
+        def __init__(self):
+            self.n = 0
+
+        def is_done(self, tracker):
+            self.n += 1
+            return self.n > 40
+
+    algo = H.pick([RandomSearch, HC, OnePlusOne, GeneticProgramming])
+    kw = {"population_size": 2 + H.draw(5)} if algo is GeneticProgramming else {}
+    res = OpResult("search")
+
+    def go():
+        return algo(problem=SingleObjectiveProblem(ff, minimize=bool(H.draw(2))), budget=AnyOf(EvaluationBudget(6 + H.draw(20)), Checks()),
+                    representation=w.rep, random=w.random, **kw).search()
+
+    w.install_flaky()
+    best = w.guarded(res, go)
+    ctx.stat("searches")
+    if res.foreign:
+        ctx.violate(f"C01/error-type/{site_of(w, res)}/{res.foreign}", f"{algo.__name__} search on {w.rep_kind} let a foreign exception escape: {res.tb}")
+    elif res.ok and best is not None:
+        try:
+            check_program(ctx, w, best.get_phenotype(), "search-result")
+        except Exception:
+            pass
+    if seen[0]:
+        ctx.nontrivial = True
+
+
 def site_of(w, res):
     """component under test for an escaping exception; unbounded recursion is attributed to the decider that drives it"""
     if res.foreign and res.foreign.startswith("RecursionError") and w.rep_kind in ("tree", "ge", "sge"):
@@ -92,5 +140,7 @@ def run(ctx):
                         check_program(ctx, w, m.phenotype, f"{res.kind}+map")
                         ctx.nontrivial = True
         ctx.sample["ops"] = ops[:20]
+        if H.draw(3) == 2:
+            search_stratum(ctx, w)
     finally:
         w.dispose()
